@@ -86,6 +86,40 @@ Theorem C04_enforce_sequence_exact : forall w l s t,
 Proof. exact enforce_sequence_restrictions_exact. Qed.
 Print Assumptions C04_enforce_sequence_exact.
 
+(* EnforceChanges (100 %) with ANY stored reference of the right size - what the copies made for local
+   and circular problems carry - not only a reference read from the problem's own sequence (fix F24:
+   before it, the restrictions forbade the nucleotides of the sequence handed to restrict_nucleotides,
+   whatever the reference).  Locations of EnforceChanges never have strand -1 (the constructor turns it
+   into +1); indices are distinct. *)
+Theorem C04_enforce_changes_exact_for_any_reference : forall l idx ref am s t,
+  reference_fits l idx ref s -> idx_covered l idx -> zlen t = zlen s ->
+  let sp := SEnforceChanges l idx ref (Some (n_positions l idx)) am true in
+  (Forall (fun r => holds r t) (restrict_nucleotides sp false s) <->
+   exists e, Specs.evaluate sp t = Some e /\ passes e = true).
+Proof. exact enforce_changes_restrictions_exact_any_reference. Qed.
+Print Assumptions C04_enforce_changes_exact_for_any_reference.
+
+(* both side conditions are necessary (witnesses): a repeated index with two different reference
+   nucleotides; a location on the reverse strand *)
+Theorem C04_enforce_changes_repeated_index_refuted :
+  exists l ix ref am s t,
+    Forall (fun i => 0 <= i < zlen s) ix /\ List.length ref = List.length ix /\
+    idx_covered l (Some ix) /\ zlen t = zlen s /\
+    let sp := SEnforceChanges l (Some ix) ref (Some (n_positions l (Some ix))) am true in
+    ~ (Forall (fun r => holds r t) (restrict_nucleotides sp false s) <->
+       exists e, Specs.evaluate sp t = Some e /\ passes e = true).
+Proof. exact enforce_changes_repeated_index_refuted. Qed.
+Print Assumptions C04_enforce_changes_repeated_index_refuted.
+
+Theorem C04_enforce_changes_reverse_strand_refuted :
+  exists l ref am s t,
+    changes_init l None ref s /\ zlen t = zlen s /\
+    let sp := SEnforceChanges l None ref (Some (n_positions l None)) am true in
+    ~ (Forall (fun r => holds r t) (restrict_nucleotides sp false s) <->
+       exists e, Specs.evaluate sp t = Some e /\ passes e = true).
+Proof. exact enforce_changes_reverse_strand_refuted. Qed.
+Print Assumptions C04_enforce_changes_reverse_strand_refuted.
+
 (* the coverage hypothesis is necessary: a specification given BOTH a location and indices outside
    it (not the documented use: "alternatively, indices can be provided") restricts nothing while its
    evaluation fails *)
